@@ -390,7 +390,14 @@ pub fn eval<D: Dom>(c: &Case<D>, mode: Mode, o: &mut Out) -> Evaluated {
                 }
             }
         }
-        Mode::C08 | Mode::C09 | Mode::C05 => {}
+        Mode::C09 => {
+            for (h, b) in &builts {
+                if let Some(msg) = &b.wf_problem {
+                    o.violation(format!("{}: automaton built under heuristic {} is not well-formed: {}", D::NAME, h.to_s(), msg), replay.clone());
+                }
+            }
+        }
+        Mode::C08 | Mode::C05 => {}
     }
     Evaluated { n_states_max, any_occurrence: any_occ }
 }
